@@ -285,21 +285,25 @@ def check(ctx, rep):
     # roots: entry points of the retry executor (public methods, registered callbacks, the thread loop);
     # private helpers that are only ever called from those are covered through inlining
     roots = [(m, rex) for m in rex.methods.values() if not (m.name.startswith("_") and callers.get(m.key))]
-    roots.append((prog.fn("retry:_submit_loop"), None))
+    layer = roles.Layer(ctx, rex)
+    rep.require(layer.loop is not None, "RetryExecutor worker thread not found")
+    roots.append((layer.loop, None))
     roots.append((fut.methods["cancel"], rfut))
+    RQ = roles.Queue(ctx, rex)
+    RREM = roles.removers(ctx, RQ)
+    FUTF = RQ.roles["future"]
     npop = 0
     for m, ci in sorted(roots, key=lambda x: x[0].key):
         ps, it = ctx.paths(m, ci, depth=6, inline=_no_cb_inline)
         for p in ps:
-            for e in p.calls():
-                r = q.recv(e)
-                if q.call_name(e) in ("pop", "remove") and isinstance(r, tuple) and r[0] == "attr" and r[2] == "_jobs" and it.type_of(r[1], p) == "C:" + rex.key:
-                    # which job?  the argument of the enclosing _pop_job frame
-                    job = _popped_job(p, e)
+            for e, j in roles.removal_actions(p, it, RQ, RREM):
+                if True:
+                    r = ("attr", q.recv(e), RQ.field) if j is not None else q.recv(e)
+                    job = j if j is not None else _popped_job(p, e)
                     if job is None:
                         raise AnalysisError("%s: cannot identify the job removed at %s" % (m.qualname, e.where()))
                     npop += 1
-                    D = ("attr", job, "future")
+                    D = ("attr", job, FUTF)
                     Dv = p.heap.get(D, D)
                     cands = [D, Dv]
                     if ci is rfut:
@@ -307,23 +311,20 @@ def check(ctx, rep):
                     resolved = any(x.seq < e.seq and any(terminal_on(x, d, it, p) for d in cands) for x in p.calls())
                     found_done = any(b.seq < e.seq and b.d[1] is True and isinstance(b.d[0], tuple) and b.d[0][0] == "call" and b.d[0][1][0] == "attr" and b.d[0][1][2] == "done" and b.d[0][1][1] in cands for b in p.evs("branch"))
                     locked = any(l[1] == ("attr", d, lockf) for l in e.locks for d in cands)
-                    xlock = [l for l in e.locks if l[1][0] == "attr" and l[1][2] == "_lock" and it.type_of(l[1][1], p) == "C:" + rex.key]
+                    xlock = [l for l in e.locks if l[1][0] == "attr" and l[1][2] in RQ.locks and it.type_of(l[1][1], p) == "C:" + rex.key]
                     replaced = False
                     if xlock:
                         # same hold of the executor lock also inserts a job for the same future
                         # end of the outermost hold of the executor lock (it is re-entrant and may be nested)
-                        held = len([l for l in e.locks if l == xlock[0]])
                         end = 10 ** 9
-                        for x in p.evs("exit"):
-                            if x.d == xlock[0] and x.seq > e.seq:
-                                held -= 1
-                                if held == 0:
-                                    end = x.seq
-                                    break
+                        for x in p.events:
+                            if x.seq > e.seq and not any(l == xlock[0] for l in x.locks):
+                                end = x.seq
+                                break
                         for a in p.calls():
                             if e.seq < a.seq < end and q.call_name(a) == "append" and q.recv(a) == r and a.d["args"]:
                                 nj = a.d["args"][0]
-                                nf = p.heap.get(("attr", nj, "future"))
+                                nf = p.heap.get(("attr", nj, FUTF))
                                 if nf is not None and (nf in cands or nf == Dv):
                                     replaced = True
                     ok = resolved or found_done or locked or replaced
@@ -399,14 +400,13 @@ def _terminal_any(x, obj):
 
 
 def _popped_job(p, e):
-    """argument bound to the job parameter of the _pop_job frame this event belongs to, or the loop element"""
-    # find the call event of _pop_job whose frame encloses e
-    best = None
-    for c in p.calls():
-        if c.seq < e.seq and c.d["callee"] is not None and c.d["callee"].name == "_pop_job" and len(c.stack) < len(e.stack):
-            best = c
-    if best is not None and best.d["args"]:
-        return best.d["args"][0]
-    if e.fn.name == "_pop_job":
-        return ("param", "job")
+    """the job a direct pop/remove on the queue takes out: remove(job) / pop(index of the element found identical
+    to a job)"""
+    if q.call_name(e) == "remove" and e.d["args"]:
+        return e.d["args"][0]
+    for t, val, b in q.atoms(p):
+        if val is True and b.seq < e.seq and isinstance(t, tuple) and t[0] == "cmp" and t[1] == "is":
+            for J in (t[2], t[3]):
+                if roles._removes(e, J, p):
+                    return J
     return None
